@@ -2,9 +2,15 @@
    newDecimalFormat/updateDecimalFormat from jlib/string.go, transcribed function by function.
 
    * Go slices that can go out of range give [LPanic]; the two exponent scaling loops of
-     FormatNumber (which do not terminate in Go for value <= 0) take [fuel] and give [LFuel].
-     No other function consumes the caller's fuel: all string loops are bounded by the
-     string length.
+     FormatNumber take [fuel] and give [LFuel] when it runs out.  (On the original tree they
+     ran on the signed value and never terminated for value <= 0; since /repo f28523c they
+     scale |value| and are skipped for zero, and fuel 701 is enough for every double, see
+     Proofs/LibFormatNumberProofs.v.)  No other function consumes the caller's fuel: all
+     string loops are bounded by the string length.
+   * The model follows the repaired code: round uses math.Round for non-ties,
+     insertSeparatorsAt skips integer positions the number does not reach and counts
+     fractional positions from the decimal separator, and FormatNumber tests for NaN and
+     infinity after the percent / per-mille scaling.
    * strings.IndexFunc/LastIndexFunc/IndexRune/Count/TrimLeftFunc/TrimRightFunc, bytes.Map,
      utf8.DecodeLastRuneInString, math.Pow10, math.Pow(10, n) for integral n, math.Ldexp are
      re-implemented here from the go1.23 sources.
@@ -524,22 +530,35 @@ Fixpoint advance_runes (n : nat) (s : string) (pos : nat) : nat :=
   | S n' => let '(_, w) := decode_rune (sdrop pos s) in advance_runes n' s (pos + w)
   end.
 
-(* insertSeparatorsAt *)
-Fixpoint isa_loop (positions : list Z) (s : string) (fromRight : bool) (acc : list string)
-  : list string :=
+(* insertSeparatorsAt: [done] is the position of the previous cut (fractional part only);
+   `continue` when an integer position has no digit to its left, `break` when a fractional
+   position has no digit to its right *)
+Definition isa_cut (n : Z) (s : string) : nat :=
+  (* at most rune_count s + 1 iterations change pos *)
+  advance_runes (Z.to_nat (Z.min n (Z.of_nat (slen s) + 1))) s 0.
+
+Fixpoint isa_loop (positions : list Z) (s : string) (fromRight : bool) (done : Z)
+         (acc : list string) : list string :=
   match positions with
   | [] => rev (s :: acc)
   | p :: rest =>
-      let n := if fromRight then Z.of_nat (rune_count s) - p else p in
-      (* at most rune_count s + 1 iterations change pos *)
-      let n' := Z.to_nat (Z.min n (Z.of_nat (slen s) + 1)) in
-      let pos := advance_runes n' s 0 in
-      isa_loop rest (sdrop pos s) fromRight (stake pos s :: acc)
+      if fromRight then
+        let n := Z.of_nat (rune_count s) - p in
+        if n <=? 0 then isa_loop rest s fromRight done acc
+        else
+          let pos := isa_cut n s in
+          isa_loop rest (sdrop pos s) fromRight done (stake pos s :: acc)
+      else
+        let n := p - done in
+        if Z.of_nat (rune_count s) <=? n then rev (s :: acc)
+        else
+          let pos := isa_cut n s in
+          isa_loop rest (sdrop pos s) fromRight p (stake pos s :: acc)
   end.
 
 Definition insert_separators_at (integer : string) (sep : rune) (positions : list Z)
            (fromRight : bool) : string :=
-  sjoin (encode_rune sep) (isa_loop positions integer fromRight []).
+  sjoin (encode_rune sep) (isa_loop positions integer fromRight 0 []).
 
 Definition pad_count (padding : Z) : nat := Z.to_nat padding.
 
@@ -601,8 +620,7 @@ Definition xround (x : f64) (prec : Z) : f64 :=
           let '(correction, _) := modf (fmod intermed f_two) in
           let intermed := fadd intermed correction in
           if fltb fzero intermed then ffloor intermed else fceil intermed
-        else if fltb x fzero then fceil (fsub intermed f_half)
-        else ffloor (fadd intermed f_half) in
+        else fround intermed in        (* math.Round; was floor(intermed + 0.5), repaired *)
       if feqb x' fzero then fzero else fdiv x' pow.
 
 (* the two scaling loops of FormatNumber *)
@@ -643,13 +661,14 @@ Section FormatNumber.
     if seqb picture EmptyString then LErr "picture string cannot be empty"
     else
     lbind (process_picture picture fmt (fltb value fzero)) (fun vars =>
-    if is_nan value then LOk (sv_prefix vars ++ df_nan fmt ++ sv_suffix vars)
-    else if is_inf value then LOk (sv_prefix vars ++ df_infinity fmt ++ sv_suffix vars)
-    else
     let value :=
       if sv_number_type vars =? 1 then fmul value f_100
       else if sv_number_type vars =? 2 then fmul value f_1000
       else value in
+    (* the scaled value can be infinite when the number is not (repaired: tested after scaling) *)
+    if is_nan value then LOk (sv_prefix vars ++ df_nan fmt ++ sv_suffix vars)
+    else if is_inf value then LOk (sv_prefix vars ++ df_infinity fmt ++ sv_suffix vars)
+    else
     lbind
       (if negb (sv_min_exponent_size vars =? 0) && negb (feqb value fzero) then
          (* the magnitude is scaled; zero is not scaled at all (repaired in /repo f28523c) *)
